@@ -1,6 +1,8 @@
 import MidoProofs.Props.C11
 #print axioms Mido.C11_close_idem
 #print axioms Mido.C11_close_log
+#print axioms Mido.C11_close_log_healthy
+#print axioms Mido.C11_release_once
 #print axioms Mido.C11_send_after_close
 #print axioms Mido.C11_closed_frozen
 #print axioms Mido.C11_closed_history
